@@ -11,7 +11,7 @@ import pickle
 from typedpy import Structure
 from typedpy.commons import InvalidStructureErr
 
-from .. import dump, gen
+from .. import dump, gen, formats
 
 
 def make_ctx():
@@ -72,15 +72,17 @@ def gen_chain(rng, vg, cls, n):
     return ops
 
 
-def gen_cases(rng, tier, n_classes):
+def gen_cases(rng, tier, n_classes, ext=False, prefix="K"):
+    """`ext=True`: the declaration generator also draws the extension field kinds (SizedString, the formatted strings)
+    at every position a scalar can occupy; with ext=False the stream is what it always was"""
     depth = 3 if tier == "quick" else 4
     cases = []
     for ci in range(n_classes):
-        dg = gen.DeclGen(rng, max_depth=rng.choice([1, 2, depth]))
+        dg = gen.DeclGen(rng, max_depth=rng.choice([1, 2, depth]), **({"ext": True} if ext else {}))
         vg = gen.ValGen(rng)
         single = rng.random() < 0.6
         cls = dg.class_decl(0, n_fields=1 if single else None)
-        cls["name"] = f"K{ci}"
+        cls["name"] = f"{prefix}{ci}"
         fix_accepts(cls)
         kws = []
         # (a) valid by construction
@@ -115,13 +117,258 @@ def gen_cases(rng, tier, n_classes):
         if base is not None:
             kws.append(("extra", base + [["zz_extra", rng.choice([1, None, "s"])]]))
         for tag, kw in kws:
-            case = {"suite": "construct", "cls": cls, "kw": kw, "stream": tag,
+            case = {"suite": "construct", "cls": cls, "kw": kw, "stream": ("ext-" + tag if ext else tag),
                     "re": None}
             if tag == "valid" or rng.random() < 0.15:
                 case["chain"] = gen_chain(rng, vg, cls, rng.randint(1, 3 if tier == "quick" else 6))
             case["re"] = gen.re_table(cls, kw, case.get("chain", []))
             cases.append(case)
     return cases
+
+
+XS_FIELDS = [{"k": "string", "maxlen": 3}, {"k": "string", "maxlen": 3, "maxLength": 5}, {"k": "string", "maxlen": 5, "maxLength": 2, "minLength": 1},
+             {"k": "string", "maxlen": 0}, {"k": "string", "fmt": "ipv4"}, {"k": "string", "fmt": "hostname"}, {"k": "string", "fmt": "json"},
+             {"k": "string", "fmt": "time"}, {"k": "string", "fmt": "date:%Y-%m-%d"}, {"k": "string", "fmt": "date:%d/%m/%y"},
+             {"k": "string", "fmt": "ipv4", "maxLength": 8}, {"k": "string", "fmt": "hostname", "minLength": 3}]
+
+
+def xstring_cases():
+    """directed: every extension string field bare and inside every container position (Array / Deque / positional /
+    Set / Tuple / Map key / Map value / AnyOf / nested class / StructureReference), given every valid and near-valid
+    string of its pool - each element must be decided as the bare field decides it"""
+    vg = gen.ValGen(__import__("random").Random(0))
+    cases = []
+    ci = 0
+    for fd in XS_FIELDS:
+        strings = [v for v in vg.boundary(fd) if isinstance(v, str)]
+        good = next((s for s in strings if vg.guess_str_ok(fd, s)), None)
+        wraps = [("bare", fd, lambda s: s),
+                 ("l", {"k": "seqOf", "item": fd}, lambda s: {"l": [good, s] if good is not None else [s]}),
+                 ("q", {"k": "seqOf", "item": fd, "seq": "deque"}, lambda s: {"q": [s]}),
+                 ("pos", {"k": "seqPos", "items": [{"k": "integer"}, fd]}, lambda s: {"l": [1, s]}),
+                 ("s", {"k": "setOf", "item": fd}, lambda s: {"s": [s]}),
+                 ("t", {"k": "tupleOf", "item": fd}, lambda s: {"t": [s]}),
+                 ("t2", {"k": "tuplePos", "items": [fd, {"k": "integer"}]}, lambda s: {"t": [s, 1]}),
+                 ("mk", {"k": "mapOf", "key": fd, "val": {"k": "integer"}}, lambda s: {"m": [[s, 1]]}),
+                 ("mv", {"k": "mapOf", "key": {"k": "string"}, "val": fd}, lambda s: {"m": [["k", s]]}),
+                 ("any", {"k": "anyOf", "fields": [{"k": "integer"}, fd]}, lambda s: s),
+                 ("opt-l", {"k": "seqOf", "item": {"k": "anyOf", "fields": [fd, {"k": "noneF"}]}}, lambda s: {"l": [None, s]}),
+                 ("inl", {"k": "struct", "name": "Inl", "inline": True, "required": ["x"], "addl": False, "fields": [["x", fd]]},
+                  lambda s: {"m": [["x", s]]}),
+                 ("cls", {"k": "struct", "name": "Inner", "required": ["x"], "addl": False, "fields": [["x", fd]]},
+                  lambda s: {"o": ["Inner", [["x", s]]]})]
+        for wname, wfd, mk in wraps:
+            cls = {"k": "struct", "name": f"XS{ci}", "required": ["a"], "addl": False, "fields": [["a", json.loads(json.dumps(wfd))]]}
+            ci += 1
+            fix_accepts(cls)
+            for si, s in enumerate(strings):
+                if wname not in ("bare", "l") and si % 3 != ci % 3 and s != good:
+                    continue            # the full pool bare and as Array elements, a third of it elsewhere
+                kw = [["a", mk(s)]]
+                case = {"suite": "construct", "cls": cls, "kw": kw, "stream": "xstring", "re": None}
+                if si % 4 == 0:
+                    case["chain"] = [{"op": "shallowClone", "kw": [["a", mk(strings[(si + 1) % len(strings)])]]}, {"op": "castTo"}]
+                case["re"] = gen.re_table(cls, kw, case.get("chain", []))
+                cases.append(case)
+    return cases
+
+
+# ---- DecimalNumber: `number` declarations with "dec", at the positions the conversion layer of Sem/Decimal.lean knows
+
+DEC_STRINGS = ["1.5", " 5 ", "1_000", "+.5", "5.", "1e3", "-0", "٣", "0.1", "-2.50", "12", "3", "0", "10", "6", "abc", "", ".", "0x10", "1,5", "e5",
+               "1.5.2", "--1", "NaN", "Infinity", "-Infinity", "sNaN", "1e30", "1e-30", "0.1000000000000000055511151231257827021181583404541015625"]
+
+
+def dec_positions(cls):
+    """[[field, "bare" | "items" | "values"]] of the class's DecimalNumber fields; None if one sits anywhere else"""
+    out = []
+    for name, fd in cls["fields"]:
+        if fd.get("k") == "number" and fd.get("dec"):
+            out.append([name, "bare"])
+        elif fd.get("k") == "seqOf" and fd.get("seq", "list") == "list" and fd["item"].get("dec"):
+            out.append([name, "items"])
+        elif fd.get("k") == "mapOf" and fd["val"].get("dec") and '"dec"' not in json.dumps(fd["key"]):
+            out.append([name, "values"])
+        elif '"dec"' in json.dumps(fd):
+            return None
+    return out
+
+
+def dec_parse_table(values):
+    """the `Decimal(str)` oracle for every string among the values: [[s, [num, den] | None]]; second result: a string
+    denotes NaN / Infinity (no finite value: the case is judged on the real code alone)"""
+    import decimal
+    from fractions import Fraction
+    strs = set()
+    for v in values:
+        gen.collect_strings(v, strs)
+    table, nonfinite = [], False
+    for s in sorted(strs):
+        try:
+            d = decimal.Decimal(s)
+        except decimal.InvalidOperation:
+            table.append([s, None])
+            continue
+        if not d.is_finite():
+            nonfinite = True
+            table.append([s, None])
+            continue
+        fr = Fraction(d)
+        table.append([s, [fr.numerator, fr.denominator]])
+    return table, nonfinite
+
+
+def _huge(j, parse_table):
+    from fractions import Fraction
+    lim = 10 ** 26
+    if any(q is not None and abs(Fraction(q[0], q[1])) >= lim for _, q in parse_table):
+        return True
+
+    def walk(x):
+        if isinstance(x, bool):
+            return False
+        if isinstance(x, int):
+            return abs(x) >= lim
+        if isinstance(x, list):
+            return any(walk(y) for y in x)
+        if isinstance(x, dict):
+            if "f" in x or "d" in x:
+                a = x.get("f") or x.get("d")
+                return abs(Fraction(a[0], a[1])) >= lim
+            return any(walk(y) for y in x.values())
+        return False
+    return walk(j)
+
+
+def decimal_cases(rng, tier, n_classes):
+    """classes with DecimalNumber fields (bare, Array items, Map values; every Number keyword) next to ordinary fields:
+    valid numbers of every accepted input type (int, float, Decimal, bool, numeric strings in every spelling the decimal
+    module takes), all boundary neighbours of every bound in each of these types, ill-formed strings, other types."""
+    from fractions import Fraction
+    cases = []
+    for ci in range(n_classes):
+        dg = gen.DeclGen(rng, max_depth=1)
+        vg = gen.ValGen(rng)
+        nd = dg.num_opts("number")
+        nd.pop("sign", None)
+        nd["dec"] = True
+        pos = rng.choice(["bare", "bare", "items", "values"])
+        if pos == "bare":
+            fd = nd
+        elif pos == "items":
+            fd = dg.size_opts({"k": "seqOf", "item": nd})
+        else:
+            fd = dg.size_opts({"k": "mapOf", "key": {"k": "string"}, "val": nd}, uniq=False)
+        fields = [["d", fd]] + [[nm, dg.decl(1)] for nm in rng.sample(["a", "b"], rng.choice([0, 0, 1]))]
+        rng.shuffle(fields)
+        cls = {"k": "struct", "name": f"Dec{ci}", "required": sorted(nm for nm, _ in fields if rng.random() < 0.6), "addl": rng.random() < 0.5,
+               "fields": fields}
+        if rng.random() < 0.2:
+            cls["ignoreNone"] = True
+        fix_accepts(cls)
+        plain = dict(nd)
+        plain.pop("dec")
+
+        def spell(x):
+            """the number x (wire int / float) in another accepted input type"""
+            fr = gen.num_of(x) if not isinstance(x, bool) else Fraction(int(x))
+            if fr is None:
+                return x
+            r = rng.random()
+            if r < 0.3:
+                return x
+            if r < 0.55:
+                return {"d": [fr.numerator, fr.denominator]}
+            import decimal
+            with decimal.localcontext() as c:
+                c.prec = 400
+                dec = decimal.Decimal(fr.numerator) / decimal.Decimal(fr.denominator)
+            s_ = format(dec, "f")
+            return rng.choice([s_, " " + s_, s_ + " ", "+" + s_ if fr >= 0 else s_])
+
+        def wrap(xs):
+            if pos == "bare":
+                return xs[0]
+            if pos == "items":
+                return {"l": list(xs)}
+            return {"m": [[f"k{i}", x] for i, x in enumerate(xs)]}
+
+        good = vg.valid(plain)
+        others = vg.valid_kw({**cls, "fields": [f for f in cls["fields"] if f[0] != "d"], "required": [r for r in cls["required"] if r != "d"], "addl": False})
+        if others is gen.NOVALUE or good is gen.NOVALUE:
+            continue
+        leafs = [("valid", spell(vg.valid(plain))) for _ in range(3)]
+        leafs += [("boundary", spell(x)) for x in vg.boundary(plain)]
+        leafs += [("boundary-raw", x) for x in vg.boundary(plain)[:6]]
+        leafs += [("string", s_) for s_ in DEC_STRINGS]
+        leafs += [("confusion", x) for x in vg.confusion()]
+        for tag, x in leafs:
+            if x is gen.NOVALUE:
+                continue
+            xs = [x] if pos == "bare" or rng.random() < 0.4 else [spell(good), x]
+            kw = others + [["d", wrap(xs)]]
+            cases.append({"suite": "construct", "cls": cls, "kw": kw, "stream": "decimal-" + tag, "re": gen.re_table(cls, kw)})
+        cases.append({"suite": "construct", "cls": cls, "kw": others, "stream": "decimal-missing", "re": gen.re_table(cls, others)})
+        cases.append({"suite": "construct", "cls": cls, "kw": others + [["d", None]], "stream": "decimal-none", "re": gen.re_table(cls, others)})
+        if pos != "bare":
+            cases.append({"suite": "construct", "cls": cls, "kw": others + [["d", wrap([])]], "stream": "decimal-empty", "re": gen.re_table(cls, others)})
+            cases.append({"suite": "construct", "cls": cls, "kw": others + [["d", rng.choice(vg.confusion())]], "stream": "decimal-confusion", "re": gen.re_table(cls, others)})
+    return cases
+
+
+_PROBE_CLASSES = {}
+
+
+def lib_accepts(fmt, s):
+    """what the BARE typedpy field of format `fmt` says about the string `s` (True / False)"""
+    cls = _PROBE_CLASSES.get(fmt)
+    if cls is None:
+        cls = _PROBE_CLASSES[fmt] = type("FmtProbe", (Structure,), {"f": dump.build_field({"k": "string", "fmt": fmt}, dump.Ctx()), "_required": []})
+    try:
+        cls(f=s)
+        return True
+    except (TypeError, ValueError):
+        return False
+
+
+def fmt_deviations(table):
+    """strings of the case's oracle table on which the library's bare field and the documented language differ:
+    [[fmt, s, lib_accepts, [phenomenon, ...]]]"""
+    out = []
+    for p, s, documented in table or []:
+        if formats.is_token(p):
+            fmt = formats.fmt_of_token(p)
+            lib = lib_accepts(fmt, s)
+            if lib != documented:
+                out.append([fmt, s, lib, formats.classify(fmt, s, lib)])
+    return out
+
+
+def deviation_findings(case, impl, prefix_accept, prefix_reject):
+    """finding keys for the format deviations of a case: `<phenomenon-prefix>:<format>:<how>`"""
+    fails = []
+    for fmt, s, lib, flags in impl.get("fmt_dev", []):
+        if (prefix_accept if lib else prefix_reject) is None:
+            continue
+        fam = fmt.split(":")[0]
+        for fl in flags:
+            key = f"{prefix_accept if lib else prefix_reject}:{fam}:{fl}"
+            fails.append((key, f"the {fam} field {'accepts' if lib else 'rejects'} {s!r}, which the documented language "
+                               f"{'excludes' if lib else 'includes'} ({fl})"))
+    return fails
+
+
+def oracle_only_findings(case, impl):
+    """cases without a model line (a DecimalNumber given NaN / Infinity / a value beyond the decimal context): the
+    error-class clause is still executed on the real code"""
+    fails = []
+    if "err" in impl and impl["err"] not in ("TypeError", "ValueError", "InvalidStructureErr"):
+        kind = "decimal" if "decs" in impl else top_kind(case)
+        if kind == "decimal":
+            kind += ":beyond-context" if "DivisionImpossible" in impl.get("msg", "") else ":nan-or-infinity"
+        fails.append((f"error-class:{kind}:{impl['err']}", f"rejection raised {impl['err']} (not TypeError/ValueError) for "
+                      + json.dumps(case["kw"], ensure_ascii=False)[:200] + f": {impl.get('msg')}"))
+    return fails
 
 
 def crosstype_cases():
@@ -266,9 +513,65 @@ def default_cases(rng, tier, n_classes):
     return cases
 
 
+def transplant_cases(rng, tier, n_classes):
+    """the same type-directed cases, but every collection among the ARGUMENTS (constructor keywords and chain
+    overrides, at every depth) is first stored in a field of ANOTHER instance whose declaration is as lax as can be
+    (Array[Anything], Map[Anything, Anything], Deque[Anything], Set[Anything]) and read back from it: what the entry
+    point receives is the library's own typed wrapper (_ListStruct / _DictStruct / _DequeStruct), validated by someone
+    else's declaration.  The model sees the same content; the decision must not depend on where a value was stored."""
+    out = []
+    for c in gen_cases(rng, tier, n_classes, prefix="T"):
+        if not _has_collection([v for _, v in c["kw"]] + [v for op in c.get("chain", []) for _, v in op.get("kw", [])]):
+            continue
+        c["transplant"] = True
+        c["stream"] = "tp-" + c["stream"]
+        out.append(c)
+    return out
+
+
+def _has_collection(j):
+    if isinstance(j, list):
+        return any(_has_collection(x) for x in j)
+    if isinstance(j, dict):
+        return any(k in j for k in ("l", "q", "m", "s")) or any(_has_collection(x) for x in j.values())
+    return False
+
+
+_LAX = {}
+
+
+def _lax_class(kind):
+    from typedpy import Anything, Array, Deque, Map, Set
+    if kind not in _LAX:
+        fld = {"l": lambda: Array[Anything], "q": lambda: Deque[Anything], "m": lambda: Map[Anything, Anything], "s": lambda: Set[Anything]}[kind]()
+        _LAX[kind] = type("Lax_" + kind, (Structure,), {"f": fld, "_required": []})
+    return _LAX[kind]
+
+
+def transplant(v, depth=0):
+    """the value as read from a laxly declared field of another instance (nested collections first)"""
+    import collections
+    try:
+        if isinstance(v, Structure) or depth > 6:
+            return v
+        if isinstance(v, collections.deque):
+            return _lax_class("q")(f=collections.deque(transplant(x, depth + 1) for x in v)).f
+        if isinstance(v, list):
+            return _lax_class("l")(f=[transplant(x, depth + 1) for x in v]).f
+        if isinstance(v, tuple):
+            return tuple(transplant(x, depth + 1) for x in v)
+        if isinstance(v, dict):
+            return _lax_class("m")(f={k: transplant(x, depth + 1) for k, x in v.items()}).f
+        if isinstance(v, set):
+            return _lax_class("s")(f=v).f
+    except Exception:
+        return v
+    return v
+
+
 # ------------------------------------------------------------------ real code
 
-def preload_chain(chain, ctx):
+def preload_chain(chain, ctx, tp=False):
     """build the override values of every op up front; an op whose override cannot be built
     (generated nested instance invalid) loses its override"""
     out = []
@@ -276,6 +579,8 @@ def preload_chain(chain, ctx):
         name = op["op"]
         try:
             kw = {k: dump.load_value(v, ctx) for k, v in op.get("kw", [])}
+            if tp:
+                kw = {k: transplant(v) for k, v in kw.items()}
         except Exception:
             kw = {}
         rec = {"op": name, "kw": [[k, rename_inline(dump.dump_value(v, ctx), ctx)] for k, v in kw.items()],
@@ -332,6 +637,8 @@ def run_impl(case):
         kw = {k: dump.load_value(v, ctx) for k, v in case["kw"]}
     except Exception as e:
         return {"unbuildable": f"value: {type(e).__name__}: {e}"}
+    if case.get("transplant"):
+        kw = {k: transplant(v) for k, v in kw.items()}
     kw_actual = [[k, rename_inline(dump.dump_value(v, ctx), ctx)] for k, v in kw.items()]
     snap_before = json.dumps([[k, dump.dump_value(v, ctx)] for k, v in kw.items()], sort_keys=True)
     try:
@@ -342,11 +649,23 @@ def run_impl(case):
         res = {"err": err_name(e), "msg": str(e)[:300]}
     res["kw_actual"] = kw_actual
     res["cls_actual"] = cls_actual
+    dev = fmt_deviations(case.get("re"))
+    if dev:
+        res["fmt_dev"] = dev
+    if '"dec"' in json.dumps(cls_actual):
+        res["decs"] = dec_positions(cls_actual)
+        res["dec_parse"], res["dec_nonfinite"] = dec_parse_table([v for _, v in kw_actual])
+        if '"x": "Decimal:' in json.dumps(kw_actual) or '"x": "float:' in json.dumps(kw_actual):
+            res["dec_nonfinite"] = True
+        if '"mult"' in json.dumps(cls_actual) and _huge(kw_actual, res["dec_parse"]):
+            # `Decimal % int` needs the integer quotient to fit the decimal context (28 digits): beyond that the model's
+            # exact arithmetic is not what the decimal module does - outside the model's domain, judged on the real code alone
+            res["dec_nonfinite"] = True
     res["args_unchanged"] = snap_before == json.dumps([[k, dump.dump_value(v, ctx)] for k, v in kw.items()],
                                                       sort_keys=True)
     if x is not None and case.get("chain"):
         applied = []
-        loaded = preload_chain(case["chain"], ctx)
+        loaded = preload_chain(case["chain"], ctx, tp=bool(case.get("transplant")))
         try:
             y = apply_chain(x, loaded, applied)
             res["chain"] = {"ok": rename_inline(dump.dump_value(y, ctx), ctx), "applied": applied}
@@ -372,9 +691,19 @@ def rename_inline_decl(d):
 
 
 def line(case, impl):
+    if impl.get("decs") is None and "decs" in impl:
+        return None          # a DecimalNumber at a position the conversion layer does not know: oracle-only
+    if impl.get("dec_nonfinite"):
+        return None          # NaN / Infinity have no value in the model: judged on the real code alone
     l = {"suite": "construct", "cls": impl.get("cls_actual", case["cls"]), "kw": impl.get("kw_actual", case["kw"]), "re": case.get("re", [])}
     if case.get("hook"):
         l["hook"] = case["hook"]
+    if impl.get("decs"):
+        l["decs"] = impl["decs"]
+        l["decParse"] = impl["dec_parse"]
+    if impl.get("fmt_dev"):
+        # the model answers these strings as the library does; the deviation itself is reported as a finding
+        l["reOverride"] = [[formats.token(fmt), s, lib] for fmt, s, lib, _ in impl["fmt_dev"]]
     final = impl.get("chain", {}).get("ok") if case.get("chain") else None
     if final is None:
         final = impl.get("ok")
@@ -387,7 +716,14 @@ def line(case, impl):
 
 def top_kind(case):
     fs = case["cls"]["fields"]
-    return fs[0][1]["k"] if len(fs) == 1 else "class"
+    if len(fs) != 1:
+        return "class"
+    fd = fs[0][1]
+    if fd["k"] == "string" and fd.get("fmt") is not None:
+        return "string:" + fd["fmt"].split(":")[0]
+    if fd["k"] == "string" and fd.get("maxlen") is not None:
+        return "string:sized"
+    return fd["k"]
 
 
 def tags(case, impl, model):
@@ -421,6 +757,10 @@ def correspondence(case, impl, model):
         return "dump(build(decl)) != decl: " + json.dumps(impl["abstraction_mismatch"])[:800]
     if not model.get("wfDecl", True):
         return "dumped class declaration is not well-formed (wfDecl false)"
+    table = {(p, s): b for p, s, b in case.get("re") or []}
+    for p, s, b in model.get("fmtLean", []):
+        if table.get((p, s)) is not b:
+            return f"format oracle disagreement on {s!r}: Lean {p} says {b}, the harness's independent implementation {table.get((p, s))}"
     mres = model["res"]
     if "ok" in mres:
         if "ok" not in impl:
@@ -432,6 +772,10 @@ def correspondence(case, impl, model):
     if "ok" in impl:
         return f"model rejects ({mres['err']}), real code accepts: " + json.dumps(impl["ok"])[:300]
     if impl["err"] != mres["err"]:
+        if impl.get("decs") and impl["err"] in model.get("errs", []):
+            # DecimalNumber items are converted one by one while the Array is validated; the model converts the argument
+            # first - with two invalid things in one case only the set of exception classes is comparable
+            return None
         if case["cls"].get("defaults") and impl["err"] in model.get("errs", []):
             # several invalid fields: the real constructor applies the defaults before the arguments, the model goes
             # field by field - which of the errors surfaces first is not part of any statement
@@ -455,5 +799,9 @@ def chain_correspondence(case, impl, model):
     if "ok" in ic:
         return f"chain {ic.get('applied')}: model raises {mc['err']}, real code succeeds"
     if ic["err"] != mc["err"]:
+        if case["cls"].get("defaults") and ic["err"] in model.get("chainErrs", []):
+            # several invalid fields at the failing step (an invalid falsy default next to an invalid argument): the real
+            # constructor applies the defaults before the arguments, the model goes field by field
+            return None
         return f"chain {ic.get('applied')}: exception class differs: model {mc['err']}, real code {ic['err']}: {ic.get('msg')}"
     return None
